@@ -88,6 +88,20 @@ func defaultSym(v ssa.Value) (string, bool) {
 	case *ssa.UnOp:
 		if x.Op == token.MUL {
 			if _, ok := asFieldAddr(x.X); ok {
+				// field of a struct-valued parameter of a private helper (spilled to a local): named as at the call
+				if fa, ok := x.X.(*ssa.FieldAddr); ok {
+					if al, ok := fa.X.(*ssa.Alloc); ok {
+						if sts := cellStoreInstrs(al); len(sts) == 1 {
+							if prm, ok := sts[0].Val.(*ssa.Parameter); ok {
+								if a := resolveParam(prm); a != ssa.Value(prm) {
+									if st := structOf(fa.X.Type()); st != nil {
+										return accessPath(a) + "." + st.Field(fa.Field).Name(), true
+									}
+								}
+							}
+						}
+					}
+				}
 				return accessPath(x.X), true
 			}
 			if _, ok := x.X.(*ssa.Global); ok {
@@ -98,6 +112,14 @@ func defaultSym(v ssa.Value) (string, bool) {
 			}
 		}
 	case *ssa.Field:
+		// a field of a struct value that a private helper received as a parameter is named as at the call
+		if prm, ok := x.X.(*ssa.Parameter); ok {
+			if a := resolveParam(prm); a != ssa.Value(prm) {
+				if st := structOf(x.X.Type()); st != nil {
+					return accessPath(a) + "." + st.Field(x.Field).Name(), true
+				}
+			}
+		}
 		return accessPath(x), true
 	case *ssa.Call:
 		if b, ok := x.Call.Value.(*ssa.Builtin); ok && (b.Name() == "len" || b.Name() == "cap") {
